@@ -157,21 +157,21 @@ def run_case(chk, stream, case):
             chk.hit("tamper:flip")
             try:
                 out = mc.decrypt(bytes(x), key, info)
-                fails.append(oracle("C15:tamper-accepted", "plaintext of %d bytes: flipping a bit of ciphertext byte %d/%d is accepted and yields %d bytes"
-                                    % (n, pos, len(ct), len(out))))
-                break
             except Exception:
-                pass
+                continue
+            fails.append(oracle("C15:tamper-accepted", "plaintext of %d bytes: flipping a bit of ciphertext byte %d/%d is accepted and yields %d bytes"
+                                % (n, pos, len(ct), len(out))))
+            break
         for cut in range(1, len(ct) + 1) if case["all"] else [1, 10, 16, len(ct)]:
             if cut > len(ct):
                 continue
             chk.hit("tamper:truncate")
             try:
                 out = mc.decrypt(ct[:len(ct) - cut], key, info)
-                fails.append(oracle("C15:tamper-accepted", "plaintext of %d bytes: ciphertext truncated by %d bytes is accepted (%d bytes returned)" % (n, cut, len(out))))
-                break
             except Exception:
-                pass
+                continue
+            fails.append(oracle("C15:tamper-accepted", "plaintext of %d bytes: ciphertext truncated by %d bytes is accepted (%d bytes returned)" % (n, cut, len(out))))
+            break
         # modifications that LENGTHEN the blob: bytes appended after the tag, bytes put in front, a block inserted before the tag, the tag doubled
         import random as _random
         rr = _random.Random(case["seed"])
@@ -196,18 +196,20 @@ def run_case(chk, stream, case):
         other = bytes.fromhex(case["other"])
         try:
             mc.decrypt(ct, other, info)
-            fails.append(oracle("C15:wrong-key-accepted", "plaintext of %d bytes decrypts under a different key" % n))
+            accepted = True
         except Exception:
-            pass
+            accepted = False
+        if accepted:
+            fails.append(oracle("C15:wrong-key-accepted", "plaintext of %d bytes decrypts under a different key" % n))
         for k2, i2 in chk.infos.items():
             if k2 == case["kind"]:
                 continue
             chk.hit("wrong-kind")
             try:
                 mc.decrypt(ct, key, i2)
-                fails.append(oracle("C15:wrong-kind-accepted", "%s ciphertext of %d bytes decrypts as %s" % (case["kind"], n, k2)))
             except Exception:
-                pass
+                continue
+            fails.append(oracle("C15:wrong-kind-accepted", "%s ciphertext of %d bytes decrypts as %s" % (case["kind"], n, k2)))
     return fails
 
 
